@@ -215,7 +215,7 @@ class BackwardRun:
 def twin_autograd(scn: dict, run: BackwardRun) -> list[str]:
     """C05: torch.autograd.backward(tensors, grad_tensors = w split per tensor, inputs) on an
     identically built second graph leaves the same .grad (None == zeros for unreachable inputs)."""
-    B = Built(scn["prog"], dtype=run.dtype, shapes=run.built.shapes)
+    B = Built(scn["prog"], dtype=run.dtype, shapes=run.built.shapes, real=run.built.real)
     for l, flat in fmap(scn.get("pregrad")).items():
         B.set_grad(int(l), flat)
     w = [float(v) for v in scn["w"]]
